@@ -671,9 +671,11 @@ def r_pe_rest(ctx, a):
 # the EXECUTED whole-state model at rest (C05_whole_state_rest_isothermal_steady)
 # ---------------------------------------------------------------------------
 def r_whole_state_rest(ctx, a):
-    """resting isothermal atmosphere on a tiny real grid: the real explicit_terms + implicit_terms against the theorem's
-    conclusion (zero / g (lap orog - clip lap orog)), and the extracted whole-state model (Model/PrimEqFull.v) on the same state"""
-    m = dyn.mods(); pe = m['pe']
+    """resting isothermal atmosphere on a tiny real grid (dry class, or the moist class with uniform humidity q0): the real
+    explicit_terms + implicit_terms against the theorem's conclusion (zero / g/(1+eps q0) (lap orog - clip lap orog)), the named
+    table hypotheses of the moist theorem, and the extracted whole-state model (Model/PrimEqFull.v) on the same state"""
+    m = dyn.mods(); pe = m['pe']; jnp = m['jnp']; sh = m['sh']
+    kind = a.get('kind', 'dry'); moist = kind == 'moist'
     specs = specs_of(a['consts']); b = a['b']; K = len(b) - 1
     g, x, y, z = grid_of(a['grid'], a.get('radius'))
     c = dyn.coords(g, b)
@@ -693,52 +695,76 @@ def r_whole_state_rest(ctx, a):
     ll = np.arange(L)[None, :]
     oro = oro * np.asarray(g.mask) * ((ll <= L - 1) if a.get('top') else (ll < L - 1))
     T0 = float(a['T0']); tref = np.full(K, T0)
+    q0 = float(a.get('q0', 0.0)) if moist else 0.0
+    eps = specs.R_vapor / specs.R - 1; mf = 1 + eps * q0
     one = one_modal(g)
-    lnps = (a['c'] * one - specs.g * oro / (specs.R * T0))
+    lnps = (a['c'] * one - specs.g * oro / (specs.R * T0 * mf))
     zero = np.zeros((K,) + tuple(g.modal_shape))
-    eq = dyn.pe_equation('dry', c, specs, tref, oro)
-    st = pe.State(zero, zero, zero, lnps[None], {})
-    ex = eq.explicit_terms(st); im = eq.implicit_terms(st)
-    fe = [np.asarray(getattr(ex, n), dtype=np.float64) for n in ('vorticity', 'divergence', 'temperature_variation', 'log_surface_pressure')]
-    fi = [np.asarray(getattr(im, n), dtype=np.float64) for n in ('vorticity', 'divergence', 'temperature_variation', 'log_surface_pressure')]
+    qm = zero + q0 * one
+    tracers = {QN: qm} if moist else {}
+    eq = dyn.pe_equation(kind, c, specs, tref, oro)
+    tot_, ex, im = pe_total(eq, kind, zero, zero, zero, lnps[None], tracers)
+    names = ['vorticity', 'divergence', 'temperature_variation', 'log_surface_pressure']
+    fe = [np.asarray(getattr(ex, n), dtype=np.float64) for n in names]
+    fi = [np.asarray(getattr(im, n), dtype=np.float64) for n in names]
     lam = np.asarray(g.laplacian_eigenvalues, dtype=np.float64); LAM = float(np.max(np.abs(lam)))
     lap_oro = oro * lam[None, :]
     clip_lap = lap_oro * (np.arange(L) < L - 1)[None, :]
-    # magnitude of the terms summed: g lap(orog), lap(R T0 lnps) including the horizontally constant part R T0 c times the eigenvalue
+    # magnitude of the terms summed: g lap(orog), lap(R T0 lnps) including the horizontally constant part R T0 c times the eigenvalue;
+    # moist: lap of the (horizontally constant) humidity part of the geopotential and the q T_ref (Rv - R) laplacian(lnps) correction
+    alpha = np.asarray(pe.get_sigma_ratios(c.vertical), dtype=np.float64)
     term = LAM * (specs.g * float(np.max(np.abs(oro))) + specs.R * T0 * float(np.max(np.abs(lnps)))) + 1e-300
-    resid = specs.g * (lap_oro - clip_lap)
+    if moist:
+        term += LAM * (specs.R * float(np.max(np.abs(alpha))) * 2 * K * q0 * T0 * abs(eps) * float(np.max(np.abs(one)))
+                       + q0 * T0 * abs(specs.R_vapor - specs.R) * float(np.max(np.abs(lnps))))
+    resid = specs.g / mf * (lap_oro - clip_lap)
     tot = [fe[k] + fi[k] for k in range(4)]
+    if moist:
+        # ---- the named table hypotheses of C05_whole_state_rest_isothermal_steady_moist, on the implementation's own operators ----
+        qn = to_nodal(g, qm)
+        ctx.table_obligation('H_q_uniform: to_nodal of the uniform-humidity spectrum is q0 at every node', float(np.max(np.abs(qn - q0))) <= 2.0 ** -36 * abs(q0) + 1e-300,
+                             {'error': float(np.max(np.abs(qn - q0)))})
+        gq = sh_grad = g.cos_lat_grad(jnp.asarray(qm), clip=False)
+        gqn = max(float(np.max(np.abs(to_nodal(g, np.asarray(t))))) for t in gq)
+        ctx.table_obligation('H_gradq_zero: the nodal cos-lat gradient of the uniform humidity vanishes', gqn <= 2.0 ** -36 * abs(q0) * L / float(g.radius) + 1e-300, {'max': gqn})
+        t1 = to_modal(g, np.ones(g.nodal_shape))
+        e1 = float(np.max(np.abs(np.asarray(g.laplacian(jnp.asarray(t1))))))
+        ctx.table_obligation('H_lap_one: laplacian(to_modal(1)) = 0 on every coefficient', e1 <= 2.0 ** -36 * LAM * float(np.max(np.abs(t1))), {'max': e1})
+        ll_ = np.asarray(g.laplacian(jnp.asarray(lnps)), dtype=np.float64)
+        back = np.asarray(g.clip_wavenumbers(g.to_modal(g.to_nodal(jnp.asarray(ll_)))), dtype=np.float64)
+        e2 = float(np.max(np.abs(back - np.asarray(g.clip_wavenumbers(jnp.asarray(ll_))))))
+        ctx.table_obligation('H_lapn: clip(to_modal(to_nodal(laplacian(lnps)))) = clip(laplacian(lnps))', e2 <= 2.0 ** -36 * LAM * float(np.max(np.abs(lnps))) * L * L,
+                             {'error': e2})
     ctx.oracle('whole-state rest: the implicit orographic term is exercised', float(np.max(np.abs(fi[1]))) > 0.01 * specs.g * float(np.max(np.abs(lap_oro))) or a['oro_amp'] == 0,
                {'implicit': float(np.max(np.abs(fi[1])))})
     if a.get('top'):
         ctx.oracle('whole-state rest: the residual clause is exercised (orography has content in the clipped wavenumber)', float(np.max(np.abs(resid))) > 0, None)
-    ctx.oracle_close('whole-state rest: divergence tendency = g (lap orog - clip lap orog) on every coefficient', tot[1], resid[None] + 0 * tot[1], scale=term, tol_rel=1e-10)
-    steady(ctx, 'whole-state rest: divergence tendency = 0 below the clipped total wavenumber', tot[1][..., :L - 1], term)
-    steady(ctx, 'whole-state rest: vorticity tendency = 0', tot[0], term)
-    steady(ctx, 'whole-state rest: temperature tendency = 0', tot[2], specs.kappa * T0 * term + 1e-300)
-    steady(ctx, 'whole-state rest: surface pressure tendency = 0', tot[3], term)
+    ctx.oracle_close('whole-state rest (%s): divergence tendency = g/(1+eps q0) (lap orog - clip lap orog) on every coefficient' % kind, tot[1], resid[None] + 0 * tot[1], scale=term, tol_rel=1e-10)
+    steady(ctx, 'whole-state rest (%s): divergence tendency = 0 below the clipped total wavenumber' % kind, tot[1][..., :L - 1], term)
+    steady(ctx, 'whole-state rest (%s): vorticity tendency = 0' % kind, tot[0], term)
+    steady(ctx, 'whole-state rest (%s): temperature tendency = 0' % kind, tot[2], specs.kappa * T0 * term + 1e-300)
+    steady(ctx, 'whole-state rest (%s): surface pressure tendency = 0' % kind, tot[3], term)
     # ---- the extracted whole-state model on the same state ----
     ls = np.log(c.vertical.centers)
-    ints = [M, L, I, Jn, K, 0]
+    ints = [M, L, I, Jn, K, 1 if moist else 0]
     base = [tf.ravel(), tp.ravel(), tw, ta.ravel(), tb.ravel(), sec2, sin_lat,
-            [g.radius, specs.angular_velocity, specs.g, specs.R, specs.kappa], ls, b, tref, oro.ravel(),
-            zero.ravel(), zero.ravel(), zero.ravel(), lnps.ravel(), []]
+            [g.radius, specs.angular_velocity, specs.g, specs.R, specs.kappa, specs.R_vapor, specs.Cp_vapor], ls, b, tref, oro.ravel(),
+            zero.ravel(), zero.ravel(), zero.ravel(), lnps.ravel(), qm.ravel() if moist else []]
     n3 = K * R * L
     def split(mo):
         return [mo[:n3], mo[n3:2 * n3], mo[2 * n3:3 * n3], mo[3 * n3:3 * n3 + R * L]]
-    me = split(ctx.model.call(30, ints, base)); mi = split(ctx.model.call(31, ints, base))
-    names = ['vorticity', 'divergence', 'temperature_variation', 'log_surface_pressure']
+    me = split(ctx.model.call(32 if moist else 30, ints, base)); mi = split(ctx.model.call(31, ints, base))
     sc = [term, term, specs.kappa * T0 * term + 1e-300, term]
     for k, n_ in enumerate(names):
-        ctx.corr('whole-state rest (composed model): explicit_terms ' + n_, fe[k], me[k], scale=sc[k])
-        ctx.corr('whole-state rest (composed model): implicit_terms ' + n_, fi[k], mi[k], scale=sc[k])
-    # the theorem's conclusion on the MODEL outputs, exactly up to the rounding of the float lnps handed to it
+        ctx.corr('whole-state rest (composed %s model): explicit_terms %s' % (kind, n_), fe[k], me[k], scale=sc[k])
+        ctx.corr('whole-state rest (composed %s model): implicit_terms %s' % (kind, n_), fi[k], mi[k], scale=sc[k])
+    # the theorem's conclusion on the MODEL outputs, exactly up to the rounding of the float lnps / tables handed to it
     mtot = np.array([float(u_ + v_) for u_, v_ in zip(me[1], mi[1])]).reshape(tot[1].shape)
-    ctx.oracle_close('whole-state rest: the model total divergence tendency is the stated residual', mtot, resid[None] + 0 * mtot, scale=term, tol_rel=1e-10)
+    ctx.oracle_close('whole-state rest (%s): the model total divergence tendency is the stated residual' % kind, mtot, resid[None] + 0 * mtot, scale=term, tol_rel=1e-10)
     for k in (0, 2, 3):
-        ctx.exact('whole-state rest: model explicit+implicit %s tendency exactly zero' % names[k],
+        ctx.exact('whole-state rest (%s): model explicit+implicit %s tendency exactly zero' % (kind, names[k]),
                   all(u_ + v_ == 0 for u_, v_ in zip(me[k], mi[k])), True)
-    ctx.count('whole_state_rest:%s K=%d top=%d' % (a['grid'], K, int(bool(a.get('top')))))
+    ctx.count('whole_state_rest:%s %s K=%d top=%d' % (kind, a['grid'], K, int(bool(a.get('top')))))
 
 
 def r_pe_rest_states(ctx, a):
@@ -1413,6 +1439,12 @@ def generate(ctx):
         yield 'whole_state_rest', dict(grid='t4' if r % 4 != 3 else 't3', consts=consts, radius=rad, b=lev(K), seed=int(rng.integers(1 << 30)),
                                        oro_amp=float([0.02, 0.05, 0.01][r % 3]) * (1000.0 if consts is None else 1.0), c=float(rng.integers(-8, 9)) / 4,
                                        T0=float(rng.integers(200, 320)) + 0.25 * int(rng.integers(0, 4)), top=int(r % 3 == 1))
+    for r in range(1 if quick else 3):
+        consts, rad = _consts(rng, r + 1)
+        yield 'whole_state_rest', dict(kind='moist', grid='t3', consts=consts, radius=rad, b=lev(2), seed=int(rng.integers(1 << 30)),
+                                       oro_amp=0.02 * (1000.0 if consts is None else 1.0), c=float(rng.integers(-8, 9)) / 4,
+                                       T0=float(rng.integers(200, 320)) + 0.25 * int(rng.integers(0, 4)), top=int(r % 2 == 0),
+                                       q0=float(rng.integers(1, 16)) / 512)
     for K in ([1, 3] if quick else [1, 2, 3, 5, 8]):
         yield 'geopotential', dict(grid='g7', b=lev(K), tref=prof(K), R=[287.0, 1.0, 0.3][K % 3], g=[9.80616, 1.0, 72.0][K % 3],
                                    seed=int(rng.integers(1 << 30)), coefs=[[0, 0], [0, 2], [3, 2], [2, 1]])
